@@ -243,3 +243,41 @@ func replayCrashPath(c *Ctx, spec *crSpec, path []crPoint) {
 		img = next
 	}
 }
+
+// FAULTPLAN re-runs one C08 fault plan: VERIF_REPLAY names a C08 violation file (its replay.plan is
+// used) or a file holding just the plan.
+func init() {
+	Registry["FAULTPLAN"] = func(c *Ctx) {
+		b, err := os.ReadFile(os.Getenv("VERIF_REPLAY"))
+		if err != nil {
+			panic(err)
+		}
+		var w struct {
+			Replay struct {
+				Plan *c08Plan `json:"plan"`
+			} `json:"replay"`
+		}
+		json.Unmarshal(b, &w)
+		plan := w.Replay.Plan
+		if plan == nil {
+			plan = &c08Plan{}
+			if err := json.Unmarshal(b, plan); err != nil {
+				panic(err)
+			}
+		}
+		spec := plan.Workload
+		fr := &c08Run{c: c, once: &crSigOnce{}, plan: plan, bs: spec.gen(), o: c08Options(spec), r: c.R.Fork()}
+		fr.run()
+		c.Res.Eval("plan", true)
+		fmt.Println("outcome:", fr.outcome)
+		for _, op := range fr.inj.firedOps() {
+			fmt.Println("injected:", op.String())
+		}
+		for _, f := range fr.failedCalls {
+			fmt.Println("call error:", f)
+		}
+		for _, v := range c.Res.Violations {
+			fmt.Println("VIOLATION", v.Signature, "\n ", v.Message)
+		}
+	}
+}
